@@ -136,7 +136,8 @@ def _build(d):
             if t == 1:
                 c.update(cached=d.int(1, 99), ctype='n')
             elif t == 2:
-                c.update(cached=d.choice(TEXTS[:6]), ctype='str')
+                c.update(cached=d.choice(TEXTS[:6]),
+                         ctype=d.choice(['str', 'str', 'inlineStr']))
             elif t == 3:
                 c.update(cached=bool(d.pick(2)), ctype='b')
             elif t == 4:
@@ -257,7 +258,7 @@ def cached_tag(c):
     v = c['cached']
     if t == 'n':
         return ('N', float(v))
-    if t == 'str':
+    if t in ('str', 'inlineStr'):
         return ('T', v)
     if t == 'b':
         return ('B', bool(v))
